@@ -6,7 +6,8 @@ package main
 //
 // ops (one history = one sealed proposal and perturbations of it):
 //   seal <q|c> <ver> <epoch> <term> <fence> <cmd> <base> <last> <pterm> <pidx> <pdig> <n> {<id> <idx> <epoch> <setting> <from> <cmn> <ts> <sync> <payload>}*n
-//        q = quorumlog.SealProposalManifest, c = channel.SealProposalManifest (the field-mapping wrapper)
+//        q = quorumlog.SealProposalManifest, c = channel.SealProposalManifest (the field-mapping wrapper),
+//        d = pkg/db/message deriveDurableProposalEntries over stored rows (ver also asks verifyBackupRowIdentity)
 //        -> `rej` | `ok <manifestDigest> <entry>,<entry>…`  entry = ver/epoch/term/fence/index/pterm/pidx/cmd/pdig/dig
 //   ver <i>                       VerifyEntry(sealed entry i, its record)            -> 0|1|none
 //   pert <i> <field>=<op>…        VerifyEntry on a perturbed (identity, record) pair  -> `<0|1> <digest of the perturbed pair>` | none
@@ -23,6 +24,7 @@ import (
 	"strings"
 
 	"github.com/WuKongIM/WuKongIM/pkg/channel"
+	dbmessage "github.com/WuKongIM/WuKongIM/pkg/db/message"
 	"github.com/WuKongIM/WuKongIM/pkg/quorumlog"
 )
 
@@ -315,8 +317,11 @@ func genC05(g *Gen) {
 			g.Count("seal:valid")
 		}
 		api := "q"
-		if r.Chance(35) {
+		switch r.Pick(45, 30, 25) {
+		case 1:
 			api = "c"
+		case 2:
+			api = "d"
 		}
 		g.Count("seal:api-" + api)
 		var sb strings.Builder
@@ -509,6 +514,7 @@ func genC05(g *Gen) {
 // ------------------------------------------------------------------- runner ---
 
 type c05Runner struct {
+	api     string
 	sealed  bool
 	entries []quorumlog.EntryIdentity
 	recs    []quorumlog.Record
@@ -774,7 +780,7 @@ func (x *c05Runner) Step(op string) string {
 			ok0 = ok0 && o
 		}
 		n, err := strconv.Atoi(f[12])
-		if !ok0 || err != nil || n < 0 || len(f) != 13+9*n || (f[1] != "q" && f[1] != "c") {
+		if !ok0 || err != nil || n < 0 || len(f) != 13+9*n || (f[1] != "q" && f[1] != "c" && f[1] != "d") {
 			return "bad-op"
 		}
 		// the manifest's own Digest field must be ignored by Seal: hand it garbage
@@ -790,8 +796,17 @@ func (x *c05Runner) Step(op string) string {
 		var sealed quorumlog.ProposalManifest
 		var entries []quorumlog.EntryIdentity
 		var ok bool
+		x.api = f[1]
 		if f[1] == "q" {
 			sealed, entries, ok = quorumlog.SealProposalManifest(m, recs)
+		} else if f[1] == "d" { // the message store's own construction of quorumlog.Record from rows
+			entries, ok = dbmessage.VerifDeriveDurable(m, recs, uint8(len(f)))
+			if ok && len(entries) > 0 {
+				sealed = m
+				sealed.Digest = entries[len(entries)-1].Digest
+			} else {
+				entries = nil
+			}
 		} else {
 			crecs := make([]channel.Record, n)
 			for i, rc := range recs {
@@ -833,7 +848,11 @@ func (x *c05Runner) Step(op string) string {
 		if !x.sealed || i >= len(x.entries) {
 			return "none"
 		}
-		return c05bit(quorumlog.VerifyEntry(x.entries[i], x.recs[i]))
+		v := quorumlog.VerifyEntry(x.entries[i], x.recs[i])
+		if x.api == "d" { // the backup path rebuilds the record from the stored row
+			v = v && dbmessage.VerifBackupRowIdentity(x.entries[i], x.recs[i], uint8(i)*37+1)
+		}
+		return c05bit(v)
 	case "pert":
 		if len(f) < 3 {
 			return "bad-op"
